@@ -146,6 +146,63 @@ type harness struct {
 
 	lines []map[string]any
 	stats map[string]int
+
+	// probes from a second goroutine while a call is in progress, and injected index faults
+	probeIdx  bool       // look the chain up while Accept is inside the chain index write
+	failIdx   bool       // the chain index refuses the next write once
+	faults    int
+	midFound  [][]string // GetBlock results seen during the index write
+	midLa     []string   // LastAccepted seen during the index write
+	finishing bool       // FinishStateSync in progress
+	midH      []string   // HealthCheck seen at each Chain callback inside FinishStateSync
+}
+
+// faultIndex is the chain index handed to the VM: the driver can look at the VM from a second goroutine while
+// Accept is inside UpdateLastAccepted (Accept holds chainLock there; the lookups do not take it) and can make the
+// write fail once.
+type faultIndex struct {
+	*chainindex.ChainIndex[*inBlk]
+	h *harness
+}
+
+func (f *faultIndex) UpdateLastAccepted(ctx context.Context, blk *inBlk) error {
+	h := f.h
+	if h.probeIdx {
+		h.probeIdx = false
+		done := make(chan struct{})
+		go func() {
+			defer close(done)
+			found := []string{}
+			for _, name := range h.order {
+				n := h.nodes[name]
+				if b, err := h.vm.GetBlock(ctx, n.blk.id); err == nil && b.ID() == n.blk.id {
+					found = append(found, name)
+				}
+			}
+			h.midFound = append(h.midFound, found)
+			la := "err"
+			if id, err := h.vm.LastAccepted(ctx); err == nil {
+				la = h.nameOf(id)
+			}
+			h.midLa = append(h.midLa, la)
+		}()
+		<-done
+	}
+	if h.failIdx {
+		h.failIdx = false
+		return errors.New("driver: injected chain index write failure")
+	}
+	return f.ChainIndex.UpdateLastAccepted(ctx, blk)
+}
+
+// probeHealth: HealthCheck from a second goroutine while FinishStateSync is inside a Chain callback.
+func (h *harness) probeHealth() {
+	if !h.finishing {
+		return
+	}
+	done := make(chan string)
+	go func() { done <- h.health() }()
+	h.midH = append(h.midH, <-done)
 }
 
 func (h *harness) nameOf(id ids.ID) string {
@@ -301,7 +358,7 @@ func (c *vchain) Initialize(ctx context.Context, in snow.ChainInput, vm *vmT) (s
 	if h.rootReady {
 		out.state = h.path(h.root)
 	}
-	return idx, out, &accBlk{out}, h.rootReady, nil
+	return &faultIndex{ChainIndex: idx, h: h}, out, &accBlk{out}, h.rootReady, nil
 }
 
 func (*vchain) SetConsensusIndex(*snow.ConsensusIndex[*inBlk, *outBlk, *accBlk]) {}
@@ -337,6 +394,7 @@ func (c *vchain) VerifyBlock(_ context.Context, parent *outBlk, blk *inBlk) (*ou
 	h := c.h
 	pn := outName(h, parent)
 	h.cb("cverify", h.nameOf(blk.GetID()), pn, false)
+	h.probeHealth()
 	if pn == "none" {
 		return nil, errors.New("driver: VerifyBlock on a parent without output")
 	}
@@ -356,6 +414,7 @@ func (c *vchain) AcceptBlock(_ context.Context, parent *accBlk, blk *outBlk) (*a
 	name := outName(h, blk)
 	if h.inSync {
 		h.cb("caccept", name, pn, false)
+		h.probeHealth()
 		return &accBlk{blk}, nil
 	}
 	h.cb("caccept", name, pn, true)
@@ -545,7 +604,19 @@ func (h *harness) verify(name string) {
 }
 
 func (h *harness) accept(name string) {
+	h.probeIdx = h.rng.Intn(100) < 60
+	h.failIdx = h.faults < 2 && h.rng.Intn(100) < 8
+	failing := h.failIdx
+	h.midFound, h.midLa = [][]string{}, []string{}
 	err := h.held[name].Accept(h.ctx)
+	h.probeIdx, h.failIdx = false, false
+	if failing {
+		// the index write was refused: Accept must fail and leave the block processing; it is retried later
+		h.faults++
+		line := h.emit("acceptfail", name, resOf(err), false)
+		line["midfound"], line["midla"] = h.midFound, h.midLa
+		return
+	}
 	if err == nil {
 		h.status[name] = "acc"
 		h.lastAcc = name
@@ -561,7 +632,8 @@ func (h *harness) accept(name string) {
 			}
 		}
 	}
-	h.emit("accept", name, resOf(err), false)
+	line := h.emit("accept", name, resOf(err), false)
+	line["midfound"], line["midla"] = h.midFound, h.midLa
 	if err == nil && h.ready {
 		h.waitArrived()
 	}
@@ -642,16 +714,17 @@ func (h *harness) finishSync(name string) {
 	_ = json.Unmarshal(n.blk.bytes, in)
 	in.init()
 	out := &outBlk{inBlk: in, state: h.path(name)} // the executed state of the target as the network has it
-	h.inSync = true
+	h.inSync, h.finishing, h.midH = true, true, []string{}
 	err := h.vm.FinishStateSync(h.ctx, in, out, &accBlk{out})
-	h.inSync = false
+	h.inSync, h.finishing = false, false
 	if err == nil {
 		h.ready = true
 		h.phase = "done"
 	} else {
 		h.phase = "failed"
 	}
-	h.emit("finishsync", name, resOf(err), false)
+	line := h.emit("finishsync", name, resOf(err), false)
+	line["midh"] = h.midH
 }
 
 // ---------------------------------------------------------------- schedules
